@@ -70,14 +70,45 @@ def channel_trace(tid, hist, r, curve, aead, mode, mismatch, full):
             rsender = skS.public_key()
     elif mismatch == "receiver":
         skR = key(curve, "R2", r)
+    elif mismatch == "enc":
+        pass                      # handled below: the receiver is given a different encoding of the same ephemeral key
     elif mismatch != "none":
         mismatch = "info"
         rinfo = info + b"x"
-    receiver = HPKE.new(receiver_key=skR, aead_id=AEADS[raead], enc=sender.enc, sender_key=rsender, psk=rpsk, info=rinfo)
+    renc = sender.enc
+    if mismatch == "enc":
+        # a different byte string that decodes to the same ephemeral public key: it is not the enc that was sent
+        if curve == "curve25519":
+            renc = renc[:-1] + bytes([renc[-1] ^ 0x80])
+        elif curve in ("p256", "p384", "p521"):
+            renc = ECC.import_key(renc, curve_name=curve).export_key(format="SEC1", compress=True)
+        else:
+            mismatch = "info"
+            rinfo = info + b"x"
+    rcap = {}
+
+    def rspy(dh, kem_context, kem_id, hashmod):
+        rcap["kemctx"] = kem_context
+        return orig(dh, kem_context, kem_id, hashmod)
+    HPKE._extract_and_expand = rspy
+    try:
+        receiver = HPKE.new(receiver_key=skR, aead_id=AEADS[raead], enc=renc, sender_key=rsender, psk=rpsk, info=rinfo)
+    except ValueError:
+        if mismatch != "enc":
+            raise
+        # the re-encoded enc is refused at set-up: equally fine; continue with a plain mismatch so that the history is still used
+        HPKE._extract_and_expand = orig
+        mismatch, renc, rinfo = "info", sender.enc, info + b"x"
+        HPKE._extract_and_expand = rspy
+        receiver = HPKE.new(receiver_key=skR, aead_id=AEADS[raead], enc=renc, sender_key=rsender, psk=rpsk, info=rinfo)
+    finally:
+        HPKE._extract_and_expand = orig
     cfg = dict(kem=CURVES[curve], aead=aead, mode=mode, mismatch=mismatch, full=bool(full), info=list(info),
                psk=list(psk[1]) if psk else [], pskid=list(psk[0]) if psk else [],
                dh=list(captured.get("dh", b"")), kemctx=list(captured.get("kemctx", b"")), enc=list(sender.enc),
-               pkR=list(pk_bytes(key(curve, "R", r))), pkS=list(pk_bytes(skS)) if auth else [])
+               pkR=list(pk_bytes(key(curve, "R", r))), pkS=list(pk_bytes(skS)) if auth else [],
+               hasrctx="kemctx" in rcap, rkemctx=list(rcap.get("kemctx", b"")), renc=list(renc), rpkR=list(pk_bytes(skR)),
+               rpkS=list(pk_bytes(rsender)) if rsender is not None else [])
     try:
         cfg.update(haskey=True, key=list(sender._key), basenonce=list(sender._base_nonce), expsecret=list(sender._export_secret))
     except AttributeError:
@@ -195,15 +226,21 @@ def main():
     tid = 0
     curves = ["p256", "curve25519", "p384", "p521", "curve448"]
     nfull = job["nfull"]
+    nfull_big = dict((c, job.get("nfull_big", 2)) for c in ("p384", "p521", "curve448"))
     for i, h in enumerate(job["hists"]):
         tid += 1
         curve = curves[i % 5]
         aead = 1 + (i // 5) % 3
         mode = (i // 15) % 4
-        mismatch = "none" if r.random() < 0.75 else r.choice(["info", "psk", "pskid", "aead", "sender", "mode", "receiver"])
-        full = curve in ("p256", "curve25519") and nfull > 0
-        if full:
-            nfull -= 1
+        mismatch = "none" if r.random() < 0.72 else r.choice(["info", "psk", "pskid", "aead", "sender", "mode", "receiver", "enc", "enc"])
+        # full RFC 9180 evaluation: HKDF-SHA256 suites are cheap (~2 s of TLC), SHA-384/512 suites cost 3-4 times as much
+        if curve in ("p256", "curve25519"):
+            full = nfull > 0
+            nfull -= 1 if full else 0
+        else:
+            full = nfull_big.get(curve, 0) > 0
+            if full:
+                nfull_big[curve] -= 1
         traces.append(channel_trace(tid, h, r, curve, aead, mode, mismatch, full))
     traces += setup_traces(tid, r)
     json.dump(traces, sys.stdout)
